@@ -55,6 +55,8 @@ def is_sequence_type_restriction(st1: str, st2: str) -> bool:
     elif st2 in ('empty-sequence()', 'none') and \
             (st1 in ('empty-sequence()', 'none') or st1.endswith(('?', '*'))):
         return True
+    elif st2 == 'empty-sequence()':
+        return False  # st1 requires at least an item
 
     # check occurrences
     if st1[-1] not in '?+*':
